@@ -290,6 +290,13 @@ func (e *integEngine) checkC08() {
 		}
 		if st != nil && st.Dir != "" {
 			wantDir = st.Dir
+			if strings.Contains(wantDir, "{{.VS_V0}}") {
+				v := t.Vars["VS_V0"]
+				if o, ok := st.Vars["VS_V0"]; ok {
+					v = o
+				}
+				wantDir = strings.Replace(wantDir, "{{.VS_V0}}", v, 1)
+			}
 		}
 		if wantDir == "" {
 			wantDir = cwd
@@ -441,6 +448,10 @@ func GenOverrideWorld(ch *Choices, thorough bool) *IntegWorld {
 			}
 			if ch.Bool(1, 4, "override-dir") {
 				s.Dir = "/vs/" + s.Name
+				if ch.Bool(1, 2, "templated-stage-dir") {
+					// every stage with its own template text over the variable it may override
+					s.Dir = "/vs/" + s.Name + "-{{.VS_V0}}"
+				}
 			}
 			if ch.Bool(1, 3, "stage-only-env") {
 				if s.Env == nil {
